@@ -25,6 +25,7 @@ def hyps (req : Sexp) : Option Sexp :=
   | .list [.atom "sem", _, prog, _, .list vals] => some (Driver.semSpec prog vals)
   | .list [.atom "semstrict", _, prog, _, .list vals] => some (Driver.semStrictSpec prog vals)
   | .list [.atom "pschema", _, prog, _, _] => some (Driver.progSchemaHyps prog)
+  | .list [.atom "h256", _, script, e1, _, e2, _, _] => some (Driver.h256Hyps script e1 e2)
   | .list [.atom "schema-ctx", env, .list rts, .str template, _, .list ovs, .list calls, _] => some (Driver.schemaHyps env rts template ovs calls)
   | _ => none
 
